@@ -69,6 +69,9 @@ pub struct LocalCfg {
     /// `media_capabilities.image` / `.application` (round 2)
     pub image: Vec<rustrtc::config::T38Capability>,
     pub sctp_port: Option<u16>,
+    /// the connection builds an offer of its own first (`create_offer`, discarded): its transceivers then carry
+    /// locally assigned mids when the remote offer arrives (a connection that has been an offerer)
+    pub offered_first: bool,
 }
 
 fn acap(pt: u8, name: &str, clock: u32, ch: u8, fmtp: Option<&str>) -> AudioCapability {
@@ -109,7 +112,8 @@ fn gen_cfg(rng: &mut Rng) -> LocalCfg {
         _ => vec![],
     };
     let sctp_port = if rng.chance(1, 5) { Some(*rng.pick(&[5001u16, 9, 65535])) } else { None };
-    LocalCfg { mode, legacy, mux_require, audio, video, caps_set, trxs, tracks, image, sctp_port }
+    let offered_first = rng.chance(1, 8);
+    LocalCfg { mode, legacy, mux_require, audio, video, caps_set, trxs, tracks, image, sctp_port, offered_first }
 }
 
 fn rtc_config(c: &LocalCfg) -> RtcConfiguration {
@@ -290,7 +294,7 @@ impl Verdict {
 
 /// what the oracle knows about the answerer besides the two descriptions: used ONLY to name the root cause of a
 /// failure in its signature (so that a failure with another cause is a new signature), never to excuse one.
-pub struct Ctx<'a> { pub renegotiation: bool, pub cfg: &'a LocalCfg, pub first_offer: Option<&'a SessionDescription>, pub trx_kinds: Vec<MediaKind> }
+pub struct Ctx<'a> { pub renegotiation: bool, pub cfg: &'a LocalCfg, pub first_offer: Option<&'a SessionDescription>, pub trx_kinds: Vec<MediaKind>, pub trx_mids: Vec<(MediaKind, Option<String>)> }
 
 fn local_audio(c: &LocalCfg) -> Vec<AudioCapability> { if c.caps_set && !c.audio.is_empty() { c.audio.clone() } else { vec![AudioCapability::default()] } }
 fn local_video(c: &LocalCfg) -> Vec<VideoCapability> { if c.caps_set && !c.video.is_empty() { c.video.clone() } else { vec![VideoCapability::default()] } }
@@ -343,7 +347,11 @@ pub fn valid_answer(offer: &SessionDescription, ans: &SessionDescription, cx: &C
                     // what the answer looks like when section `sec` is the one whose codecs were intersected with the local list
                     let consistent = |sec: &MediaSection| if common(sec) { a.formats.iter().all(|f| sec.formats.contains(f)) } else { a.formats == local_pts };
                     let first_audio = offer.media_sections.iter().position(|m| m.kind == MediaKind::Audio).unwrap_or(i);
-                    if o.mid.is_empty() && first_audio != i && consistent(&offer.media_sections[first_audio]) { "midless-first-audio-section-consulted" }
+                    // a transceiver of the kind carries a mid that no offered section has (assigned by an earlier create_offer):
+                    // matched to a mid-less section by kind, it looks the remote section up by ITS mid and finds none
+                    let own_mid = cx.trx_mids.iter().any(|(k2, m)| *k2 == o.kind && m.as_deref().is_some_and(|m| !m.is_empty() && !offer.media_sections.iter().any(|s2| s2.mid == m)));
+                    if o.mid.is_empty() && own_mid && a.formats == local_pts { "own-mid-lookup-misses-midless-section" }
+                    else if o.mid.is_empty() && first_audio != i && consistent(&offer.media_sections[first_audio]) { "midless-first-audio-section-consulted" }
                     else if !o.mid.is_empty() && first_same_mid != i { "duplicate-mid" }
                     else if !common(o) && a.formats == local_pts { "no-common-codec-local-list" }
                     else if common(o) { "common-codec-exists" } else { "other" }
@@ -528,7 +536,7 @@ async fn answer_step(run: &mut Run, case: &str, c: &LocalCfg, pc: &PeerConnectio
             run.case("ans", &input, &a_s, true);
             run.count(if reneg { "answers_renegotiation" } else { "answers_first" });
             run.count(&format!("answer_sections_{}", ans.media_sections.len()));
-            let cx = Ctx { renegotiation: reneg, cfg: c, first_offer, trx_kinds: snap.transceivers.iter().map(|t| t.kind).collect() };
+            let cx = Ctx { renegotiation: reneg, cfg: c, first_offer, trx_kinds: snap.transceivers.iter().map(|t| t.kind).collect(), trx_mids: snap.transceivers.iter().map(|t| (t.kind, t.mid.clone())).collect() };
             let v = valid_answer(offer, &ans, &cx);
             run.case("valid", &format!("{case} {} {}", desc_s(offer), a_s), &v.text(), !v.all());
             if v.all() { run.count("answers_valid"); } else { run.count("answers_invalid"); }
@@ -556,6 +564,9 @@ pub async fn exec_case(run: &mut Run, case: &str, ac: &AnsCase) {
     }
     run.count(&format!("mode_{}", match c.mode { TransportMode::WebRtc => "webrtc", TransportMode::Srtp => "srtp", TransportMode::Rtp => "rtp" }));
     if c.legacy { run.count("cfg_legacy_sip"); }
+    if c.offered_first && (!c.trxs.is_empty() || !c.tracks.is_empty()) {
+        if pc.create_offer().await.is_ok() { run.count("connections_that_offered_first"); }
+    }
     let mut reneg = false;
     let mut first: Option<SessionDescription> = None;
     for spec in ac.offer1.iter().chain(std::iter::once(&ac.offer)) {
